@@ -305,7 +305,7 @@ Qed.
 
 Theorem program_wfl p en mm prog : create_program p en mm = Program prog -> wfl prog = true.
 Proof.
-  unfold create_program. destruct (valid p en mm); [|discriminate]. unfold to_program.
+  unfold create_program. destruct (check p en mm); [discriminate|]. unfold to_program.
   pose proof (proj1 (build_wfl p) en mm fresh chs_ok_fresh) as H.
   destruct (t_ch (build p en mm fresh)) eqn:E; [discriminate|]. intro Hp. injection Hp as <-.
   rewrite <- E. apply wfl_inner; auto. congruence.
